@@ -13,13 +13,22 @@ type Src struct {
 	Kind string // nil | nonnil | param | call | global | load | other
 	V    ssa.Value
 	At   *ssa.BasicBlock
+	To   *ssa.BasicBlock // the Phi's block if the value enters through a Phi edge At -> To (else nil)
 }
 
 // Sources classifies the possible origins of an interface/pointer value with respect to nil-ness.
 func (w *World) Sources(v ssa.Value, at *ssa.BasicBlock) []Src {
 	seen := map[ssa.Value]bool{}
 	var out []Src
+	var curTo *ssa.BasicBlock
 	var walk func(v ssa.Value, at *ssa.BasicBlock)
+	// walkAt continues at another program point: the value no longer enters through the Phi edge
+	walkAt := func(v ssa.Value, at *ssa.BasicBlock) {
+		saved := curTo
+		curTo = nil
+		walk(v, at)
+		curTo = saved
+	}
 	walk = func(v ssa.Value, at *ssa.BasicBlock) {
 		if v == nil {
 			return
@@ -33,13 +42,16 @@ func (w *World) Sources(v ssa.Value, at *ssa.BasicBlock) []Src {
 		switch x := v.(type) {
 		case *ssa.Const:
 			if x.Value == nil {
-				out = append(out, Src{"nil", v, at})
+				out = append(out, Src{"nil", v, at, curTo})
 			} else {
-				out = append(out, Src{"nonnil", v, at})
+				out = append(out, Src{"nonnil", v, at, curTo})
 			}
 		case *ssa.Phi:
 			for i, e := range x.Edges {
+				saved := curTo
+				curTo = x.Block()
 				walk(e, x.Block().Preds[i])
+				curTo = saved
 			}
 		case *ssa.ChangeInterface:
 			walk(x.X, at)
@@ -47,11 +59,11 @@ func (w *World) Sources(v ssa.Value, at *ssa.BasicBlock) []Src {
 			walk(x.X, at)
 		case *ssa.MakeInterface:
 			// an interface holding a typed value is never == nil
-			out = append(out, Src{"nonnil", v, at})
+			out = append(out, Src{"nonnil", v, at, curTo})
 		case *ssa.Alloc, *ssa.MakeClosure, *ssa.Function, *ssa.MakeMap, *ssa.MakeSlice, *ssa.MakeChan, *ssa.FieldAddr, *ssa.IndexAddr:
-			out = append(out, Src{"nonnil", v, at})
+			out = append(out, Src{"nonnil", v, at, curTo})
 		case *ssa.Parameter:
-			out = append(out, Src{"param", v, at})
+			out = append(out, Src{"param", v, at, curTo})
 		case *ssa.Call:
 			if sel := selectOperands(x); sel != nil {
 				for _, s := range sel {
@@ -59,32 +71,32 @@ func (w *World) Sources(v ssa.Value, at *ssa.BasicBlock) []Src {
 				}
 				return
 			}
-			out = append(out, Src{"call", v, at})
+			out = append(out, Src{"call", v, at, curTo})
 		case *ssa.Extract:
 			if _, ok := x.Tuple.(*ssa.Call); ok {
-				out = append(out, Src{"call", v, at})
+				out = append(out, Src{"call", v, at, curTo})
 			} else {
-				out = append(out, Src{"other", v, at})
+				out = append(out, Src{"other", v, at, curTo})
 			}
 		case *ssa.UnOp:
 			if x.Op == token.MUL {
 				switch a := x.X.(type) {
 				case *ssa.Global:
-					out = append(out, Src{"global", a, at})
+					out = append(out, Src{"global", a, at, curTo})
 					return
 				case *ssa.Alloc:
 					if st := lastStoreBefore(x, a); st != nil {
-						walk(st.Val, st.Block())
+						walkAt(st.Val, st.Block())
 						return
 					}
 					found := false
 					w.eachStore(a, func(st *ssa.Store) {
 						found = true
-						walk(st.Val, st.Block())
+						walkAt(st.Val, st.Block())
 					})
 					if !found {
 						// zero value of the variable
-						out = append(out, Src{"nil", v, at})
+						out = append(out, Src{"nil", v, at, curTo})
 					}
 					return
 				case *ssa.FreeVar:
@@ -92,19 +104,19 @@ func (w *World) Sources(v ssa.Value, at *ssa.BasicBlock) []Src {
 						found := false
 						w.eachStore(b, func(st *ssa.Store) {
 							found = true
-							walk(st.Val, st.Block())
+							walkAt(st.Val, st.Block())
 						})
 						if found {
 							return
 						}
 					}
 				}
-				out = append(out, Src{"load", v, at})
+				out = append(out, Src{"load", v, at, curTo})
 				return
 			}
-			out = append(out, Src{"other", v, at})
+			out = append(out, Src{"other", v, at, curTo})
 		default:
-			out = append(out, Src{"other", v, at})
+			out = append(out, Src{"other", v, at, curTo})
 		}
 	}
 	walk(v, at)
@@ -226,4 +238,34 @@ func escapes(a *ssa.Alloc) bool {
 		}
 	}
 	return false
+}
+
+// srcOnlyVia: the source s can contribute its value only on paths on which p held - either its
+// entering block is reachable only through edges carrying p, or the Phi edge it enters through
+// (At -> To) carries p itself (`v := d; if own != nil { v = *own }`: the default enters the merge
+// through the own == nil edge).
+func srcOnlyVia(fn *ssa.Function, s Src, p func(Fact) bool) bool {
+	if onlyVia(fn, s.At, p) {
+		return true
+	}
+	if s.To == nil || s.At == nil {
+		return false
+	}
+	found := false
+	for i, sb := range s.At.Succs {
+		if sb != s.To {
+			continue
+		}
+		found = true
+		ok := false
+		for _, f := range edgeFacts(s.At, i) {
+			if p(f) {
+				ok = true
+			}
+		}
+		if !ok {
+			return false
+		}
+	}
+	return found
 }
